@@ -111,6 +111,9 @@ def allows(recv, it):
     if k == "dyn":
         if recv["types"] and f not in recv["types"]:
             return False
+        c = recv.get("count", -1)
+        if f != "L" and c > 0 and len(p) > c:  # Dynamic's count = max number of ELEMENTS of the typed value
+            return False
         return f != "L" or all(_any_ok(s) for s in p)
     if k == "leaf":
         if f != recv["f"]:
@@ -160,7 +163,7 @@ def _format(recv, name, top):
             return sg.cls_of(recv["f"])
         return sg.data_item_class(name, fmt=recv["f"], count=recv.get("count", -1))
     if k == "dyn":
-        return sg.data_item_class(name, types=recv["types"], count=-1)
+        return sg.data_item_class(name, types=recv["types"], count=recv.get("count", -1))
     if k == "array":
         return [_format(recv["of"], name + "E", False)]
     return [name] + [_format(d, f"{name}F{i}", False) for i, d in enumerate(recv["fields"])]
@@ -172,7 +175,7 @@ def build(recv):
     from secsgem.secs.variables import functions
 
     if recv["k"] == "dyn" and recv.get("direct"):
-        return variables.Dynamic([sg.cls_of(t) for t in recv["types"]])
+        return variables.Dynamic([sg.cls_of(t) for t in recv["types"]], count=recv.get("count", -1))
     if recv["k"] == "leaf" and recv.get("raw"):
         return sg.cls_of(recv["f"])(count=recv.get("count", -1))
     return functions.generate(_format(recv, "D0", True))
@@ -567,7 +570,12 @@ def _draw_dynr_rv(draw, in_list):
     recv = {"k": "dyn", "types": draw(_TYPES)}
     if not in_list and draw(_BOOL):
         recv["direct"] = True
-    return recv, draw_value(draw, recv)
+    value = draw_value(draw, recv)
+    # count-limited Dynamic items (XYPOS[2], LIMITMAX[1] ...): the limit counts elements, not bytes
+    if value["f"] != "L" and draw(_BOOL):
+        n = len(value["v"]) if "v" in value else value["n"]
+        recv["count"] = max(n, 1) if draw(_BOOL) else n + 2
+    return recv, value
 
 
 def draw_value(draw, recv):
@@ -583,7 +591,9 @@ def draw_value(draw, recv):
         f = draw(st.sampled_from(recv["types"] or gi.SCALARS + ["L"]))
         if f == "L":
             return _as_list(draw(tree_noj(2)))
-        return draw(_leaf_of(f))
+        it = draw(_leaf_of(f))
+        c = recv.get("count", -1)
+        return it if c <= 0 else {"f": it["f"], "v": it["v"][:c]}
     if k == "array":
         return {"f": "L", "v": [draw_value(draw, recv["of"]) for _ in range(draw(_N03))]}
     return {"f": "L", "v": [draw_value(draw, d) for d in recv["fields"]]}
@@ -778,6 +788,7 @@ def _typed_receivers(f):
         (DYN_ALL_ITEM, 0),
         ({"k": "dyn", "types": [other, f]}, 0),
         ({"k": "dyn", "types": [f, "L"]}, 0),
+        ({"k": "dyn", "types": [other, f], "count": 5}, 0),
         ({"k": "array", "of": {"k": "leaf", "f": f, "count": -1, "raw": True}}, 1),
         ({"k": "array", "of": {"k": "dyn", "types": [other, f]}}, 1),
         ({"k": "list", "fields": [{"k": "leaf", "f": other, "count": -1}, {"k": "leaf", "f": f, "count": -1}]}, 2),
